@@ -45,7 +45,7 @@ func init() {
 		}
 		verifDump(os.Stdout, g)
 	case "multibuild":
-		// parse + (optimize) + build the same text k times inside one process, print one digest each
+		// parse + (optimize) + build the same text(s) k times inside one process, print one digest each
 		src, _ := io.ReadAll(os.Stdin)
 		k, _ := strconv.Atoi(os.Getenv("PIGEON_VERIF_K"))
 		flags := map[string]bool{}
@@ -56,8 +56,11 @@ func init() {
 		if e := os.Getenv("PIGEON_VERIF_ENTRYPOINTS"); e != "" {
 			entry = strings.Split(e, ",")
 		}
-		for i := 0; i < k; i++ {
-			g, err := ParseReader("stdin", bytes.NewReader(src))
+		// several grammar texts separated by a line "%%NEXT%%" are built one after the other, k
+		// rounds (what one process builds first must not influence what it builds next)
+		texts := bytes.Split(src, []byte("\n%%NEXT%%\n"))
+		for i := 0; i < k*len(texts); i++ {
+			g, err := ParseReader("stdin", bytes.NewReader(texts[i%len(texts)]))
 			if err != nil {
 				fmt.Println("PARSE-ERROR:", err)
 				os.Exit(3)
